@@ -229,6 +229,11 @@ func (fv *FuncVC) runLoop(ls *loopSpec, st *State) *State {
 	for _, h := range known {
 		H := head.heaps[h]
 		recs := byHeap[h]
+		if all && fv.preservesAnalysisNodes() && isAnalysisNodeHeap(h) && len(recs) == 0 {
+			fv.addFact(head, mkEq(H, pre[h]))
+			head.heaps[h] = pre[h]
+			continue
+		}
 		if all {
 			if h == "alloc" {
 				fv.addFact(head, fmt.Sprintf("(forall ((r Ref)) (! (=> (select %s r) (select %s r)) :pattern ((select %s r))))", pre[h], H, pre[h]))
